@@ -106,7 +106,7 @@ func (d *driver) inconclusive(what string) {
 // goroutines do not pile up (best effort; nothing is judged afterwards).
 func (d *driver) release() {
 	d.st.mu.Lock()
-	for _, g := range []*chan struct{}{&d.st.holdReadErr, &d.st.holdIsOpen} {
+	for _, g := range []*chan struct{}{&d.st.holdReadErr, &d.st.holdIsOpen, &d.st.holdOpen} {
 		if *g != nil {
 			close(*g)
 			*g = nil
@@ -704,6 +704,32 @@ func (d *driver) expectEvent(kind string) (monEvent, bool) {
 		return e, false
 	}
 	return e, true
+}
+
+// expectEventAny waits for the next monitor callback whatever its kind.
+func (d *driver) expectEventAny() (monEvent, bool) {
+	var e monEvent
+	got := false
+	ok := d.await("monitor callback", func(t time.Duration) bool {
+		if got {
+			return true
+		}
+		deadline := time.Now().Add(t)
+		for {
+			if e, got = d.mon.next(); got {
+				return true
+			}
+			if !time.Now().Before(deadline) {
+				return false
+			}
+			time.Sleep(50 * time.Microsecond)
+		}
+	}, d.deadlockCrit("monitor-reopen", true))
+	if ok {
+		d.h.run.Add("monitor_"+e.Kind, 1)
+		d.logf("monitor %s -> reopen=%v wait=%v", e.Kind, e.Reopen, e.Wait)
+	}
+	return e, ok
 }
 
 func (d *driver) checkWait(e monEvent) bool {
